@@ -38,8 +38,10 @@ def enc_pairs(l):
 def enc_src(s):
     if s[0] == "pairs":
         return [0, enc_pairs(s[1])]
-    if s[0] == "dict":
+    if s[0] in ("dict", "keys"):
         return [1, enc_pairs(s[1])]
+    if s[0] == "msg":
+        return [0, enc_pairs(s[1])]            # (never sent to the model)
     return [2, s[1]]
 
 
@@ -94,6 +96,25 @@ def _src_obj(store, s):
         return [(k, v) for k, v in s[1]]
     if s[0] == "dict":
         return dict((k, v) for k, v in s[1])
+    if s[0] == "keys":
+        # the fourth accepted source type: anything with keys() and __getitem__ (and nothing else of a mapping)
+        class KeysOnly:
+            def __init__(self, d):
+                self._d = d
+
+            def keys(self):
+                return list(self._d)
+
+            def __getitem__(self, k):
+                return self._d[k]
+        return KeysOnly(dict((k, v) for k, v in s[1]))
+    if s[0] == "msg":
+        # an http.client.HTTPMessage (it has keys() and __getitem__, and also __iter__ over its field names)
+        import http.client
+        m = http.client.HTTPMessage()
+        for k, v in s[1]:
+            m.add_header(k, v)
+        return m
     return store[s[1]]
 
 
@@ -267,8 +288,10 @@ def ref_src_lines(store, s):
     """the (name, value) lines a source contributes when *added*"""
     if s[0] == "pairs":
         return [list(p) for p in s[1]]
-    if s[0] == "dict":
+    if s[0] in ("dict", "keys"):
         return [[k, v] for k, v in dict((k, v) for k, v in s[1]).items()]
+    if s[0] == "msg":
+        return [list(p) for p in s[1]]         # its field lines, in order
     return [list(l) for l in store[s[1]].lines]
 
 
@@ -386,7 +409,17 @@ def oracle(case, obs):
     return None
 
 
+def _srcs(case):
+    return [x for o in case["ops"] for x in o if isinstance(x, list) and x and x[0] in ("pairs", "dict", "hd", "keys", "msg")]
+
+
+def in_model_domain(case):
+    return not any(x[0] in ("keys", "msg") for x in _srcs(case))
+
+
 def signature(case, obs, msg):
+    if any(x[0] == "msg" for x in _srcs(case)):
+        return {"kind": "http-message-source-read-as-pairs"}
     return {"ops": [o[0] for o in case["ops"]], "msg": msg.split(" the ")[-1] if msg else ""}
 
 
@@ -519,6 +552,17 @@ def cases(rng, tier):
     out += [{"probes": PROBES, "ops": list(p)} for p in trip]
     for _ in range(nrand):
         out.append(random_case(rng, maxlen))
+    # the fourth accepted source type (keys() and __getitem__), as a plain object and as an http.client.HTTPMessage
+    for lines in ([["A", "1"]], [["A", "1"], ["B", "2"]], [["Set-Cookie", "1"], ["set-cookie", "2"]], [["TE", "x, y"]], [["A", "1"], ["a", "2"], ["B", ""]], []):
+        for kind in ("keys", "msg"):
+            if kind == "keys" and len({k.lower() for k, v in lines}) != len(lines):
+                continue
+            for pre in ([], [["set", 0, "A", "x, y"]], [["add", 0, "B", "1", 0], ["add", 0, "b", "2", 0]]):
+                for t in ("extend", "ior", "or", "new", "update"):
+                    if t == "new":
+                        out.append({"probes": PROBES, "ops": pre + [["new", [kind, lines]]]})
+                    else:
+                        out.append({"probes": PROBES, "ops": pre + [[t, 0, [kind, lines]]]})
     return out
 
 
